@@ -20,7 +20,9 @@ Input4 == <<RefOf(Forest, 2, <<>>)>>
 DecOne == [t |-> "d", neg |-> FALSE, m |-> <<1>>, e |-> 0]
 BaseVars == [ints  |-> <<I(1), I(2), I(2), I(3)>>,
              mixed |-> <<I(1), S(<<97>>), DecOne, I(2), S(<<97>>)>>,
-             none  |-> <<>>]
+             none  |-> <<>>,
+             \* items of different types that print alike: 1, '1', true, 'true', 1.0 (= 1), '1.0'
+             looks |-> <<I(1), S(<<49>>), B(TRUE), S(<<116, 114, 117, 101>>), DecOne, S(<<49, 46, 48>>), I(1)>>]
 
 (****************************** constructors *******************************)
 RootE(n) == [k |-> "root", name |-> n]
@@ -49,13 +51,17 @@ Foci == <<
   [id |-> "pat",    txt |-> "Patient",                      e |-> Pat, twin |-> TRUE],
   [id |-> "ints",   txt |-> "%ints",                        e |-> Var("ints"), twin |-> TRUE],
   [id |-> "mixed",  txt |-> "%mixed",                       e |-> Var("mixed"), twin |-> TRUE],
-  [id |-> "none",   txt |-> "%none",                        e |-> Var("none"), twin |-> TRUE] >>
+  [id |-> "none",   txt |-> "%none",                        e |-> Var("none"), twin |-> TRUE],
+  [id |-> "bdate",  txt |-> "Patient.birthDate",            e |-> Fld(Pat, "birthDate"), twin |-> TRUE],
+  [id |-> "family", txt |-> "Patient.name.family",          e |-> Fld(Fld(Pat, "name"), "family"), twin |-> TRUE],
+  [id |-> "looks",  txt |-> "%looks",                       e |-> Var("looks"), twin |-> TRUE] >>
 
 A(s) == s   \* ASCII source fragments are TLA+ strings
 
 Official == <<111, 102, 102, 105, 99, 105, 97, 108>>
 Smith == <<83, 109, 105, 116, 104>>
 John == <<74, 111, 104, 110>>
+UrlBirth == <<104, 116, 116, 112, 58, 47, 47, 104, 108, 55, 46, 111, 114, 103, 47, 102, 104, 105, 114, 47, 83, 116, 114, 117, 99, 116, 117, 114, 101, 68, 101, 102, 105, 110, 105, 116, 105, 111, 110, 47, 112, 97, 116, 105, 101, 110, 116, 45, 98, 105, 114, 116, 104, 84, 105, 109, 101>>
 UrlA == <<104, 116, 116, 112, 58, 47, 47, 101, 120, 97, 109, 112, 108, 101, 46, 111, 114, 103, 47, 101, 120, 116, 47, 97>>
 
 Criteria == <<
@@ -75,7 +81,8 @@ Criteria == <<
   [txt |-> "$this > 1", e |-> Bin(">", This, Lit1(I(1)))],
   [txt |-> "$this = 2", e |-> Bin("=", This, Lit1(I(2)))],
   [txt |-> "$this", e |-> This],
-  [txt |-> "url = 'http://example.org/ext/a'", e |-> Bin("=", Fld(This, "url"), Lit1(Str(UrlA)))] >>
+  [txt |-> "url = 'http://example.org/ext/a'", e |-> Bin("=", Fld(This, "url"), Lit1(Str(UrlA)))],
+  [txt |-> "url = 'http://hl7.org/fhir/StructureDefinition/patient-birthTime'", e |-> Bin("=", Fld(This, "url"), Lit1(Str(UrlBirth)))] >>
 
 Projections == <<
   [txt |-> "given", e |-> Fld(This, "given")],
@@ -142,12 +149,14 @@ Prog(c) ==
        [] c.shape = "tailTake" -> [e |-> Call(Call(ce, "tail", <<>>), "take", <<nLit>>), txt |-> ct \o ".tail().take(" \o IntText(c.a) \o ")"]
        [] c.shape = "distinctCount" -> [e |-> Call(Call(ce, "distinct", <<>>), "count", <<>>), txt |-> ct \o ".distinct().count()"]
        [] c.shape = "setfn"  -> [e |-> Call(ce, c.fn, <<Var("d")>>), txt |-> ct \o "." \o c.fn \o "(%d)"]
-       [] c.shape = "ext"    -> [e |-> Call(ce, "extension", <<Lit1(Str(UrlA))>>), txt |-> ct \o ".extension('http://example.org/ext/a')"]
-       [] c.shape = "extWhere" -> [e |-> Call(Fld(ce, "extension"), "where", <<Criteria[16].e>>), txt |-> ct \o ".extension.where(url = 'http://example.org/ext/a')"]
+       [] c.shape = "ext"    -> (IF c.a = 0 THEN [e |-> Call(ce, "extension", <<Lit1(Str(UrlA))>>), txt |-> ct \o ".extension('http://example.org/ext/a')"]
+                                 ELSE [e |-> Call(ce, "extension", <<Lit1(Str(UrlBirth))>>), txt |-> ct \o ".extension('http://hl7.org/fhir/StructureDefinition/patient-birthTime')"])
+       [] c.shape = "extWhere" -> (IF c.a = 0 THEN [e |-> Call(Fld(ce, "extension"), "where", <<Criteria[16].e>>), txt |-> ct \o ".extension.where(url = 'http://example.org/ext/a')"]
+                                 ELSE [e |-> Call(Fld(ce, "extension"), "where", <<Criteria[17].e>>), txt |-> ct \o ".extension.where(url = 'http://hl7.org/fhir/StructureDefinition/patient-birthTime')"])
 
 VarsOf(c) ==
-  CASE c.shape = "setfn"  -> [ints |-> BaseVars.ints, mixed |-> BaseVars.mixed, none |-> BaseVars.none, d |-> DItems(c.f, DSpecs[c.a])]
-    [] c.shape = "fnVarN" -> [ints |-> BaseVars.ints, mixed |-> BaseVars.mixed, none |-> BaseVars.none, n |-> <<I(c.a)>>]
+  CASE c.shape = "setfn"  -> [ints |-> BaseVars.ints, mixed |-> BaseVars.mixed, none |-> BaseVars.none, looks |-> BaseVars.looks, d |-> DItems(c.f, DSpecs[c.a])]
+    [] c.shape = "fnVarN" -> [ints |-> BaseVars.ints, mixed |-> BaseVars.mixed, none |-> BaseVars.none, looks |-> BaseVars.looks, n |-> <<I(c.a)>>]
     [] OTHER -> BaseVars
 
 Outcome(c) == Eval(Prog(c).e, Env(VarsOf(c)), Input)
@@ -164,7 +173,8 @@ CasesOf(f) ==
   \cup {Case(f, "whereSelect", "-", e, p) : e \in {1, 3, 5}, p \in {1, 4, 5, 13}}
   \cup {Case(f, "selectDistinct", "-", e, 0) : e \in {1, 2, 3, 4}}
   \cup {Case(f, "fn0", fn, 0, 0) : fn \in {"empty", "count", "exists", "first", "last", "tail", "distinct", "isDistinct", "not", "allTrue", "anyTrue", "allFalse", "anyFalse"}}
-  \cup {Case(f, "countEq0", "-", 0, 0), Case(f, "distinctCount", "-", 0, 0), Case(f, "ext", "-", 0, 0), Case(f, "extWhere", "-", 0, 0)}
+  \cup {Case(f, "countEq0", "-", 0, 0), Case(f, "distinctCount", "-", 0, 0), Case(f, "ext", "-", 0, 0), Case(f, "extWhere", "-", 0, 0),
+        Case(f, "ext", "-", 1, 0), Case(f, "extWhere", "-", 1, 0)}
   \cup {Case(f, "idx", "-", n, 0) : n \in 0..(CountOf(f) + 2)}
   \cup {Case(f, "fnN", fn, n, 0) : fn \in {"take", "skip"}, n \in NRange(f)}
   \cup {Case(f, "fnVarN", fn, n, 0) : fn \in {"take", "skip"}, n \in {MinInt32, MaxInt32, 0, 1}}
